@@ -25,7 +25,6 @@ const (
 	chanID   = 11
 	initTok  = 2
 	sigWedge = "C19.rcvlocker-wedge"
-	sigLeak  = "C19.failed-send-leaks-handler"
 	slackMs  = 60000 // model slack: scheduling latency the model tolerates before it refuses to let time pass
 	marginOK = 3 * time.Second
 	hang     = 25 * time.Second
@@ -447,11 +446,7 @@ func (e *env) random(seed uint64, idx int) {
 			continue
 		}
 		if handlerIDs[id] {
-			sig := ""
-			if c.plan == "precancel" {
-				sig = sigLeak
-			}
-			e.r.Fail(s.name, sig, fmt.Sprintf("call %d (%s) has returned (%v) but its handler for request id %d is still registered", c.k, c.plan, c.err, id))
+			e.r.Fail(s.name, "", fmt.Sprintf("call %d (%s) has returned (%v) but its handler for request id %d is still registered", c.k, c.plan, c.err, id))
 		}
 		switch {
 		case c.err == nil:
@@ -484,9 +479,15 @@ func (e *env) random(seed uint64, idx int) {
 		case c.err == ua.StatusBadTimeout:
 			want = "timeout"
 		case c.err == context.Canceled && c.plan == "precancel":
-			want = "sendError"
+			want = "idle" // returns before anything is registered
 		case c.err == context.Canceled:
 			want = "cancelled"
+		}
+		if want == "idle" {
+			if m != "idle" {
+				e.r.Disagree(fmt.Sprintf("%s caller %d", s.name, c.k), m, "idle (context done before the call)")
+			}
+			continue
 		}
 		if !strings.HasPrefix(m, "finished") || !strings.HasSuffix(m, want) {
 			e.r.Disagree(fmt.Sprintf("%s caller %d", s.name, c.k), m, "finished … "+want+fmt.Sprintf(" (err=%v)", c.err))
@@ -577,34 +578,56 @@ func (e *env) forcedWedge() {
 	}
 }
 
-// forcedLeak: a request whose context is already done leaves its handler registered.
+// forcedLeak: a send that fails after the handler was registered (context ends between the
+// registration and the first write: the sender is held at send.numbered) must release its slot.
 func (e *env) forcedLeak() {
-	s := e.open("forced-failed-send-leak", time.Second)
+	s := e.open("forced-failed-send", time.Second)
 	if s == nil {
 		return
 	}
 	defer s.stop()
-	c := &call{k: 0, plan: "precancel", timeout: time.Second}
+	hold := s.ctl.BlockAt(func(ev *h.SendEv) bool { return ev.Name == "send.numbered" })
+	c := &call{k: 0, plan: "midcancel", timeout: time.Second}
 	c.ctx, c.cancel = context.WithCancel(context.Background())
-	c.cancel()
 	e.runCall(s, c)
-	<-c.done
+	if hold.WaitReached(20*time.Second) == nil {
+		e.r.InfraError = s.name + ": sender did not reach send.numbered"
+		return
+	}
+	c.cancel()
+	hold.Release()
+	select {
+	case <-c.done:
+	case <-time.After(hang):
+		e.r.Fail(s.name, "", "a request whose context ended before the write did not return")
+		return
+	}
 	ids := s.sc.VerifHandlerIDs()
 	evs := s.ctl.Events()
 	uasc.VerifSetHook(nil)
-	e.r.Hit("scenario:forced-leak")
-	if c.err != nil && len(ids) == 1 {
-		d := fmt.Sprintf("SendRequestWithTimeout with a cancelled context returned %q; handlers still contains request id %d", c.err, ids[0])
-		e.r.Fail(s.name, sigLeak, d)
-		e.r.Confirm(sigLeak, d)
-	} else {
-		e.r.Notes = append(e.r.Notes, fmt.Sprintf("%s: not reproduced: err=%v handlers=%v", s.name, c.err, ids))
+	e.r.Hit("scenario:forced-failed-send")
+	registered := false
+	for _, ev := range evs {
+		registered = registered || (ev.Name == "handlers.register" && ev.Bool(1))
+	}
+	switch {
+	case c.err == nil || !registered:
+		e.r.Notes = append(e.r.Notes, fmt.Sprintf("%s: the send did not fail after the registration (err=%v registered=%v)", s.name, c.err, registered))
+	case len(ids) != 0:
+		// oracle: a call that returned has released its pending slot
+		e.r.Fail(s.name, "", fmt.Sprintf("SendRequestWithTimeout returned %q after registering its handler; handlers still contains %v", c.err, ids))
+	default:
+		e.r.Hit("failed-send:slot-released")
 	}
 	labels := labelsOf(evs, []*call{c}, s.sc.VerifRcvLocker())
 	e.r.Count(s.name+" "+strings.Join(labels, ";"), true)
+	e.r.Sample(s.name + ": " + strings.Join(labels, "; "))
+	for _, l := range labels {
+		e.r.Hit("label:" + strings.Fields(l)[0])
+	}
 	if e.d != nil && e.replay(s.name, 1, labels) {
-		if m := e.d.Ask("handler 0"); m != "1" {
-			e.r.Disagree(s.name+" handler", m, "1")
+		if m := e.d.Ask("handler 0"); (m == "1") != (len(ids) != 0) {
+			e.r.Disagree(s.name+" handler", m, fmt.Sprint(len(ids)))
 		}
 	}
 }
@@ -684,7 +707,7 @@ func main() {
 		}
 	}
 	for _, b := range []string{"label:cSend", "label:cSendFail", "label:cRecv", "label:cTimeout", "label:cCancel", "label:cUnlock", "label:dRecv", "label:dRcvLock", "label:dSend", "label:dWait",
-		"plan:edge", "plan:late", "plan:drop", "plan:cancel", "plan:precancel", "probe:delivered", "outcome:timeout", "outcome:ok", "scenario:forced-wedge", "scenario:forced-leak"} {
+		"plan:edge", "plan:late", "plan:drop", "plan:cancel", "plan:precancel", "probe:delivered", "outcome:timeout", "outcome:ok", "scenario:forced-wedge", "scenario:forced-failed-send", "failed-send:slot-released"} {
 		if r.Distribution[b] == 0 {
 			r.Unreached = append(r.Unreached, b)
 		}
